@@ -290,6 +290,19 @@ func runHostile(s string) []string {
 		if _, p := checkWritten(raw); p != "" {
 			probs = append(probs, fmt.Sprintf("%s(%q): %s", what, s, p))
 		}
+		// a rejected value must not come back later: the next call writes its
+		// own single line (plus the implicit EHLO if the greeting is still due)
+		fs.Mark()
+		cl.Noop()
+		after := fs.Taken()
+		nl := bytes.Count(after, []byte("\n"))
+		maxLines := 1
+		if what == "Hello" {
+			maxLines = 2
+		}
+		if nl > maxLines || bytes.Contains(bytes.ReplaceAll(after, []byte("\r\n"), nil), []byte("\n")) || bytes.Contains(bytes.ReplaceAll(after, []byte("\r\n"), nil), []byte("\r")) {
+			probs = append(probs, fmt.Sprintf("%s(%q): the call after it wrote %q", what, s, after))
+		}
 		if err != nil && len(raw) != 0 {
 			if _, isSMTP := err.(*smtp.SMTPError); !isSMTP && !strings.Contains(err.Error(), "timeout") && !strings.Contains(err.Error(), "EOF") {
 				probs = append(probs, fmt.Sprintf("%s(%q): local error %v but %q was written", what, s, err, raw))
